@@ -271,6 +271,10 @@ def replay(payload):
     posteriors proper, shape <= max_shape, phases in [0.5, 1] or NaN."""
     import tsdate
     from symx import skeletons as SK
+    if payload["case"].startswith("wrapper:"):
+        # the projection wrappers themselves, on a wide grid incl. nearly flat cavities
+        from checks import c18
+        return c18.replay(payload)
     bad = []
     for name, ts in (("diploid_two_tree", SK.diploid_two_tree()), ("bal4", SK.bal4()),
                      ("internal_sample", SK.internal_sample()),
